@@ -70,7 +70,7 @@ func genMulti() *rapid.Generator[mhist] {
 					D:     rapid.SampledFrom([]time.Duration{0, -1, 1, time.Millisecond}).Draw(t, "delta")})
 			default:
 				h.Steps = append(h.Steps, mstep{Op: "req", Which: rapid.SampledFrom([]string{"a", "b", "ab", "ab", "ba", "ba"}).Draw(t, "url"),
-					Group: rapid.SampledFrom([]string{"", "a", "b"}).Draw(t, "group")})
+					Group: rapid.SampledFrom(groupValues).Draw(t, "group")})
 			}
 		}
 		return h
